@@ -263,6 +263,8 @@ package zygo
 //@ C19 pure
 
 //@ func hashHelper
+//@ C14 ensures equal-keys-hash-alike: old(typeis(expr, *SexpInt)) ==> err == nil && !isList && hashcode == old(expr.(*SexpInt).Val)
+//@ C14 ensures equal-keys-hash-alike-char: old(typeis(expr, *SexpChar)) ==> err == nil && !isList && hashcode == int(old(expr.(*SexpChar).Val))
 //@ C19 ensures symbol: old(typeis(expr, *SexpSymbol)) ==> err == nil && !isList && hashcode == old(expr.(*SexpSymbol).number)
 
 //@ func (*Zlisp).MakeFunction
@@ -752,6 +754,7 @@ package zygo
 // lazy position of a compiled (non-builtin) callee; everything else is evaluated
 //@ func (*Zlisp).PrepareCallExprArgs
 //@ C16 assert wrapped-only-if-lazy @before call NewSourceLazyArg[0]: function != nil && !function.user && lazyPos(function, i)
+//@ C16 assert lazy-position-gets-the-unevaluated-source @before call PushExpr[0]: typeis(arg1, *SexpLazyArg) && !arg1.(*SexpLazyArg).Forced && arg1.(*SexpLazyArg).Expr == expr && arg1.(*SexpLazyArg).CurFunc == env.curfunc
 //@ C16 assert strict-is-evaluated @before call EvalCallExpression[0]: !(function != nil && !function.user && function.hasLazyFormals && lazyPos(function, i))
 
 // compile-time path (tail self-calls): the layout of lazy positions comes from the
